@@ -15,6 +15,9 @@ import (
 	"errors"
 	"flag"
 	"fmt"
+	"io"
+	"io/fs"
+	"net"
 	"os"
 	"path"
 	"sort"
@@ -75,7 +78,32 @@ type step struct {
 	// Foreign = number of manifest entries somebody else commits to the head after the previous
 	// attempt ended and before this attempt's workspace is created (for attempt 0: before the run).
 	Foreign int `json:"foreign"`
+	// Kind names a standard error the scripted fault wraps ("" = none): what the back end's
+	// RetriableError says is decided by Retriable alone, never by the kind.
+	Kind string `json:"kind,omitempty"`
+	// Nth: the fault fires at the (Nth+1)th operation of its site within the attempt (0 = first).
+	Nth int `json:"nth,omitempty"`
+	// Corrupt: before this attempt's workspace is created the concurrent writer leaves the manifest
+	// with content the repository's schema does not know ("top" = an unknown top-level field,
+	// "entry" = an unknown field inside one of its entries). The entries stay readable for a
+	// parser that skips unknown fields. Once set, the head stays that way.
+	Corrupt string `json:"corrupt,omitempty"`
 }
+
+// Standard errors a scripted fault can wrap.
+var kindErrs = map[string]error{
+	"deadline":   context.DeadlineExceeded,
+	"canceled":   context.Canceled,
+	"eof":        io.EOF,
+	"uneof":      io.ErrUnexpectedEOF,
+	"perm":       os.ErrPermission,
+	"osdeadline": os.ErrDeadlineExceeded,
+	"closed":     net.ErrClosed,
+	"invalid":    fs.ErrInvalid,
+}
+
+// kinds is the fixed order used wherever a kind is chosen ("" first).
+var kinds = []string{"", "deadline", "canceled", "eof", "uneof", "perm", "osdeadline", "closed", "invalid"}
 
 func (s step) String() string {
 	r := s.Site
@@ -85,6 +113,15 @@ func (s step) String() string {
 		} else {
 			r += ".p"
 		}
+		if s.Kind != "" {
+			r += "/" + s.Kind
+		}
+		if s.Nth > 0 {
+			r += fmt.Sprintf("#%d", s.Nth+1)
+		}
+	}
+	if s.Corrupt != "" {
+		r = fmt.Sprintf("X%s:%s", s.Corrupt, r)
 	}
 	if s.Foreign > 0 {
 		r = fmt.Sprintf("F%d:%s", s.Foreign, r)
@@ -99,6 +136,15 @@ type scenario struct {
 	Overwrite   bool   `json:"overwrite"`
 	PreExisting bool   `json:"pre_existing"` // the endorsement file already exists in the head
 	Candidate   string `json:"candidate"`
+	// Head: manifest entries of our own earlier submissions already in the head before the run
+	// ("" none | "path": this candidate's file name with an older digest | "same": this
+	// candidate's name and this firmware's digest | "digest": this firmware's digest under another
+	// name | "split": both, in two entries, path entry first | "split-rev": digest entry first).
+	Head string `json:"head,omitempty"`
+	// PriorForeign foreign entries are in the head before those own entries.
+	PriorForeign int `json:"prior_foreign,omitempty"`
+	// Svsm: an SVSM image is supplied (snapshot method writes a second set of files).
+	Svsm bool `json:"svsm,omitempty"`
 }
 
 func (sc *scenario) String() string {
@@ -106,7 +152,14 @@ func (sc *scenario) String() string {
 	for _, s := range sc.Script {
 		ss = append(ss, s.String())
 	}
-	return fmt.Sprintf("%s b=%d ow=%v pre=%v cand=%q [%s]", sc.Mode, sc.Budget, sc.Overwrite, sc.PreExisting, sc.Candidate, strings.Join(ss, " "))
+	extra := ""
+	if sc.Head != "" || sc.PriorForeign > 0 {
+		extra += fmt.Sprintf(" head=%s/prior%d", sc.Head, sc.PriorForeign)
+	}
+	if sc.Svsm {
+		extra += " svsm"
+	}
+	return fmt.Sprintf("%s b=%d ow=%v pre=%v cand=%q%s [%s]", sc.Mode, sc.Budget, sc.Overwrite, sc.PreExisting, sc.Candidate, extra, strings.Join(ss, " "))
 }
 
 func bound(budget int) int {
@@ -123,6 +176,7 @@ type faultErr struct {
 	Attempt   int
 	Site      string
 	Retriable bool
+	Kind      string
 }
 
 func (e *faultErr) Error() string {
@@ -130,7 +184,18 @@ func (e *faultErr) Error() string {
 	if e.Retriable {
 		k = "retriable"
 	}
-	return fmt.Sprintf("scripted %s fault at %s of attempt %d", k, e.Site, e.Attempt)
+	r := fmt.Sprintf("scripted %s fault at %s of attempt %d", k, e.Site, e.Attempt)
+	if c := kindErrs[e.Kind]; c != nil {
+		r += ": " + c.Error()
+	}
+	return r
+}
+
+// Unwrap exposes the standard error of the fault's kind to errors.Is/As.
+func (e *faultErr) Unwrap() error { return kindErrs[e.Kind] }
+
+func newFault(attempt int, site string, st step) *faultErr {
+	return &faultErr{Attempt: attempt, Site: site, Retriable: st.Retriable, Kind: st.Kind}
 }
 
 var errNotFound = fmt.Errorf("double: %w", os.ErrNotExist)
@@ -190,6 +255,7 @@ type vcsDouble struct {
 	created  int // GetChangeOps calls
 	rcalls   int
 	overflow bool // more attempts than script steps
+	corrupt  string // the head manifest carries content unknown to the schema ("top" | "entry")
 	// self-test only: the harness change function keeps the first manifest content it ever read
 	cacheManifest bool
 	cached        []byte
@@ -202,6 +268,8 @@ type workspace struct {
 	attempt     int
 	st          step
 	fired       *faultErr
+	seen        map[string]int // operations met so far, per fault site
+	sawCorrupt  bool           // created from a head whose manifest was corrupt
 	files       map[string][]byte
 	written     map[string]bool
 	baseForeign int // foreign entries present in the head when this workspace was created
@@ -231,17 +299,33 @@ func (d *vcsDouble) commitForeign(n int) {
 	if n <= 0 {
 		return
 	}
-	m := &rpb.VMEndorsementMap{}
-	if cur, ok := d.head[d.manifest]; ok {
-		if err := prototext.Unmarshal(cur, m); err != nil {
-			panic("harness: head manifest unparsable before foreign commit: " + err.Error())
-		}
-	}
+	m := d.headManifest()
 	for i := 0; i < n; i++ {
 		e := foreignEntry(len(d.foreign))
 		d.foreign = append(d.foreign, e)
 		m.Entries = append(m.Entries, e)
 		d.head[d.ReleasePath(nil, path.Join(outDir, e.Path))] = []byte("foreign endorsement " + e.Path)
+	}
+	d.putHeadManifest(m)
+}
+
+// lenient reads a manifest the way a parser that skips unknown fields does.
+var lenient = prototext.UnmarshalOptions{DiscardUnknown: true}
+
+func (d *vcsDouble) headManifest() *rpb.VMEndorsementMap {
+	m := &rpb.VMEndorsementMap{}
+	if cur, ok := d.head[d.manifest]; ok {
+		if err := lenient.Unmarshal(cur, m); err != nil {
+			panic("harness: head manifest unparsable before foreign commit: " + err.Error())
+		}
+	}
+	return m
+}
+
+func (d *vcsDouble) putHeadManifest(m *rpb.VMEndorsementMap) {
+	if d.corrupt != "" {
+		d.head[d.manifest] = renderUnknown(m, d.corrupt)
+		return
 	}
 	out, err := prototext.Marshal(m)
 	if err != nil {
@@ -251,6 +335,82 @@ func (d *vcsDouble) commitForeign(n int) {
 		out = append([]byte("# written by somebody else\n\n"), out...)
 	}
 	d.head[d.manifest] = append(out, '\n')
+}
+
+// renderUnknown writes the manifest by hand with one field the repository's schema does not have.
+func renderUnknown(m *rpb.VMEndorsementMap, where string) []byte {
+	var b strings.Builder
+	b.WriteString("# written by somebody else with a newer schema\n")
+	for i, e := range m.Entries {
+		b.WriteString("entries {\n  digest: \"")
+		for _, c := range e.Digest {
+			fmt.Fprintf(&b, "\\x%02x", c)
+		}
+		fmt.Fprintf(&b, "\"\n  path: %q\n", e.Path)
+		if e.CreateTime != nil {
+			fmt.Fprintf(&b, "  create_time { seconds: %d nanos: %d }\n", e.CreateTime.Seconds, e.CreateTime.Nanos)
+		}
+		if where == "entry" && i == len(m.Entries)-1 {
+			b.WriteString("  reviewed_by: \"somebody else\"\n")
+		}
+		b.WriteString("}\n")
+	}
+	if where == "top" {
+		b.WriteString("schema_revision: 2\n")
+	}
+	return []byte(b.String())
+}
+
+// corruptHead plays a concurrent writer with a newer schema. There is at least one foreign entry
+// afterwards (an unknown field inside an entry needs an entry).
+func (d *vcsDouble) corruptHead(where string) {
+	if where == "" {
+		return
+	}
+	d.corrupt = where
+	if len(d.foreign) == 0 {
+		d.commitForeign(1)
+		return
+	}
+	d.putHeadManifest(d.headManifest())
+}
+
+// seedHead puts the scenario's pre-run history into the head: foreign entries, then entries of our
+// own earlier submissions (with their files).
+func (d *vcsDouble) seedHead(sc *scenario) {
+	d.commitForeign(sc.PriorForeign)
+	if sc.Head == "" {
+		return
+	}
+	own := ownBasename(sc)
+	other := "older-candidate.binarypb"
+	oldDg := sha512.Sum384([]byte("an older build of this candidate"))
+	ownDg := sha512.Sum384(firmware)
+	at := timeproto.To(time.Date(2023, 1, 2, 3, 4, 5, 0, time.UTC))
+	pathEntry := &rpb.VMEndorsementMap_Entry{Digest: oldDg[:], Path: own, CreateTime: at}
+	digestEntry := &rpb.VMEndorsementMap_Entry{Digest: ownDg[:], Path: other, CreateTime: at}
+	var add []*rpb.VMEndorsementMap_Entry
+	switch sc.Head {
+	case "path":
+		add = []*rpb.VMEndorsementMap_Entry{pathEntry}
+	case "same":
+		pathEntry.Digest = ownDg[:]
+		add = []*rpb.VMEndorsementMap_Entry{pathEntry}
+	case "digest":
+		add = []*rpb.VMEndorsementMap_Entry{digestEntry}
+	case "split":
+		add = []*rpb.VMEndorsementMap_Entry{pathEntry, digestEntry}
+	case "split-rev":
+		add = []*rpb.VMEndorsementMap_Entry{digestEntry, pathEntry}
+	default:
+		panic("harness: unknown head shape " + sc.Head)
+	}
+	m := d.headManifest()
+	for _, e := range add {
+		m.Entries = append(m.Entries, e)
+		d.head[d.ReleasePath(nil, path.Join(outDir, e.Path))] = []byte("an older endorsement")
+	}
+	d.putHeadManifest(m)
 }
 
 // begin starts a further submission against the same back end (vf/reuse): the committed head, the
@@ -285,12 +445,13 @@ func (d *vcsDouble) GetChangeOps(context.Context) (endorse.ChangeOps, error) {
 	}
 	st := d.stepFor(idx)
 	d.commitForeign(st.Foreign)
+	d.corruptHead(st.Corrupt)
 	if st.Site == sWS {
-		f := &faultErr{Attempt: idx, Site: sWS, Retriable: st.Retriable}
+		f := newFault(idx, sWS, st)
 		d.log = append(d.log, event{Op: "GetChangeOps", WS: -1, Err: f, Fault: f})
 		return nil, f
 	}
-	w := &workspace{d: d, id: len(d.wss), attempt: idx, st: st, files: map[string][]byte{}, written: map[string]bool{}, baseForeign: len(d.foreign)}
+	w := &workspace{d: d, id: len(d.wss), attempt: idx, st: st, files: map[string][]byte{}, written: map[string]bool{}, seen: map[string]int{}, baseForeign: len(d.foreign), sawCorrupt: d.corrupt != ""}
 	for k, v := range d.head {
 		w.files[k] = v
 	}
@@ -337,11 +498,12 @@ func (w *workspace) op(name string, site string, paths ...string) error {
 	switch {
 	case e.After != "":
 		e.Err = errReleased
-	case w.fired == nil && w.st.Site == site:
-		w.fired = &faultErr{Attempt: w.attempt, Site: site, Retriable: w.st.Retriable}
+	case w.fired == nil && w.st.Site == site && w.seen[site] == w.st.Nth:
+		w.fired = newFault(w.attempt, site, w.st)
 		e.Fault = w.fired
 		e.Err = w.fired
 	}
+	w.seen[site]++
 	w.d.log = append(w.d.log, e)
 	return e.Err
 }
@@ -466,12 +628,25 @@ func ownBasename(sc *scenario) string {
 	return endorse.DefaultEndorsementBasename + ".binarypb"
 }
 
+// ownFiles lists (VCS-root-relative) the endorsement files the submission writes: what "the
+// endorsement already exists" means for the commit method in use.
+func ownFiles(sc *scenario) []string {
+	if sc.Mode != modeSnap {
+		return []string{path.Join(outDir, ownBasename(sc))}
+	}
+	fs := []string{path.Join(snapDir, imgName) + ".signed"}
+	if sc.Svsm {
+		fs = append(fs, path.Join(snapDir, "svsm.igvm")+".signed")
+	}
+	return fs
+}
+
 // directChange is the harness change function for modeDir: a minimal, well-behaved manifest
 // extension (fresh read from the given workspace, then writes).
 func directChange(d *vcsDouble) func(context.Context, endorse.ChangeOps) (string, error) {
 	return func(ctx context.Context, cops endorse.ChangeOps) (string, error) {
 		if w, ok := cops.(*workspace); ok && w.st.Site == sChange && w.fired == nil && w.state() == "" {
-			w.fired = &faultErr{Attempt: w.attempt, Site: sChange, Retriable: w.st.Retriable}
+			w.fired = newFault(w.attempt, sChange, w.st)
 			d.log = append(d.log, event{Op: "Change", WS: w.id, Err: w.fired, Fault: w.fired})
 			return "", w.fired
 		}
@@ -518,8 +693,11 @@ func runScenario(sc *scenario, submit submitFn, opts ...func(*vcsDouble)) (d *vc
 	for _, o := range opts {
 		o(d)
 	}
+	d.seedHead(sc)
 	if sc.PreExisting {
-		d.head[d.ReleasePath(nil, path.Join(outDir, ownBasename(sc)))] = []byte("an older endorsement")
+		for _, p := range ownFiles(sc) {
+			d.head[d.ReleasePath(nil, p)] = []byte("an older endorsement")
+		}
 	}
 	ec := &endorse.Context{
 		SevSnp: &sev.SnpEndorsementRequest{
@@ -540,6 +718,9 @@ func runScenario(sc *scenario, submit submitFn, opts ...func(*vcsDouble)) (d *vc
 	if sc.Mode == modeSnap {
 		ec.SnapshotDir = snapDir
 		ec.ImageName = imgName
+	}
+	if sc.Svsm {
+		ec.SvsmImage = []byte("an SVSM IGVM image")
 	}
 	ctx := output.NewContext(context.Background(), &output.Options{Quiet: true, Overwrite: sc.Overwrite})
 	ctx = keys.NewContext(ctx, &keys.Context{CA: fakeCA{}, Signer: fakeSigner{}, Random: &counterReader{}})
@@ -582,6 +763,14 @@ type summary struct {
 	foreign  int
 	retried  bool
 	fired    int
+	// what the run gave the oracle to judge (evidence classes)
+	failedWS      int    // workspaces of failed attempts
+	multiDestroy  bool   // some failed workspace was released more than once (accepted)
+	atStake       int    // foreign entries in the head when the successful attempt started
+	permKind      string // kind of the last attempt's permanent fault
+	sawCorrupt    bool   // some attempt started from a manifest with content unknown to the schema
+	zeroAttempts  bool   // negative budget read as "no attempt at all" (accepted)
+	errorIdentity string // "" | how the returned error relates to the last fault (informational)
 }
 
 // judge derives every clause of the property from the call log and the committed head. It returns
@@ -691,12 +880,19 @@ func judge(sc *scenario, d *vcsDouble, err error, pan any) (*verdict, summary) {
 		if w.committed {
 			continue
 		}
+		sum.failedWS++
 		if w.destroyed == 0 {
 			return bad("C14/failed-workspace-not-released", "workspace %d of failed attempt %d was never destroyed", w.id, w.attempt+1)
 		}
+		// The statement asks for the release, not for exactly one Destroy call: a second call on an
+		// already released workspace (say, an explicit one plus a deferred one) is accepted and only
+		// counted.
 		if w.destroyed > 1 {
-			return bad("C14/workspace-released-twice", "workspace %d of failed attempt %d was destroyed %d times", w.id, w.attempt+1, w.destroyed)
+			sum.multiDestroy = true
 		}
+	}
+	for _, w := range d.wss {
+		sum.sawCorrupt = sum.sawCorrupt || w.sawCorrupt
 	}
 
 	// honest
@@ -718,7 +914,12 @@ func judge(sc *scenario, d *vcsDouble, err error, pan any) (*verdict, summary) {
 		return bad("C14/result-not-recorded-once", "successful commit %v was recorded %d times", okCommits[0].Commit, len(results))
 	}
 
-	// error identity
+	// Which error is returned. The statement only fixes success <=> commit (above). On top of that
+	// the repository documents ErrNoRetries ("submit fails too many times to continue attempting
+	// submission", "1 try is 0 retries"), so two things are demanded of it and nothing else of any
+	// other error: it is what comes back when every allowed attempt failed retriably, and it never
+	// comes back while another attempt was still allowed. Whether a permanent failure is returned
+	// as is, wrapped, or (on the last allowed attempt) as ErrNoRetries is left open.
 	if err != nil {
 		var last *attemptRec
 		if len(atts) > 0 {
@@ -728,18 +929,28 @@ func judge(sc *scenario, d *vcsDouble, err error, pan any) (*verdict, summary) {
 		switch {
 		case last != nil && last.fault != nil && !last.fault.Retriable:
 			sum.outcome = "permanent"
-			if !errors.Is(err, last.fault) && !strings.Contains(err.Error(), last.fault.Error()) {
-				return bad("C14/permanent-error-not-reported", "attempt %d failed permanently with %q but the returned error does not carry it", len(atts), last.fault)
+			sum.permKind = last.fault.Kind
+			switch {
+			case errors.Is(err, last.fault):
+				sum.errorIdentity = "permanent-error-in-chain"
+			case noRetries:
+				sum.errorIdentity = "permanent-error-reported-as-no-retries"
+			default:
+				sum.errorIdentity = "permanent-error-replaced"
 			}
 		case last != nil && last.fault != nil && last.fault.Retriable && len(atts) == bound(sc.Budget):
 			sum.outcome = "exhausted"
 			if !noRetries {
 				return bad("C14/exhausted-budget-wrong-error", "all %d allowed attempts failed retriably but the returned error is not ErrNoRetries", len(atts))
 			}
+		case len(atts) == 0 && sc.Budget < 0 && noRetries:
+			// the literal reading of a negative budget: retries+1 <= 0 attempts are allowed
+			sum.outcome = "exhausted"
+			sum.zeroAttempts = true
 		default:
 			sum.outcome = "other-error"
 		}
-		if noRetries && sum.outcome != "exhausted" {
+		if noRetries && len(atts) < bound(sc.Budget) && !sum.zeroAttempts {
 			return bad("C14/no-retries-reported-with-budget-left", "ErrNoRetries after %d attempt(s) with a retry budget of %d (%d attempts allowed) / last failure %v", len(atts), sc.Budget, bound(sc.Budget), lastFault(last))
 		}
 		return nil, sum
@@ -755,9 +966,10 @@ func judge(sc *scenario, d *vcsDouble, err error, pan any) (*verdict, summary) {
 			}
 		}
 		m := &rpb.VMEndorsementMap{}
-		if uerr := prototext.Unmarshal(d.head[d.manifest], m); uerr != nil {
+		if uerr := lenient.Unmarshal(d.head[d.manifest], m); uerr != nil {
 			return bad("C14/committed-manifest-unparsable", "committed manifest does not parse: %v", uerr)
 		}
+		sum.atStake = winner.baseForeign
 		have := map[string]bool{}
 		for _, e := range m.Entries {
 			have[e.Path+"|"+hex.EncodeToString(e.Digest)] = true
@@ -797,7 +1009,42 @@ func classOf(sc *scenario, s summary) string {
 	return c
 }
 
-func nontrivial(s summary) bool { return s.retried || s.foreign > 0 }
+// nontrivial: the run retried, or a concurrent writer's entries were at stake where the oracle
+// looks at them (the snapshot method has no manifest, so foreign entries do not count there).
+func nontrivial(sc *scenario, s summary) bool {
+	return s.retried || (s.foreign > 0 && sc.Mode != modeSnap)
+}
+
+// tally records, per sub-check, which clauses of the statement the run actually put to the test.
+func tally(name string, sc *scenario, s summary) {
+	if s.retried {
+		ev.Class(name, "judged/retry-followed-a-retriable-verdict")
+	}
+	if s.failedWS > 0 {
+		ev.Class(name, "judged/failed-workspace-released")
+	}
+	if s.outcome == "ok" && s.atStake > 0 && sc.Mode != modeSnap {
+		ev.Class(name, "judged/foreign-entries-kept-on-success")
+		if sc.Head != "" {
+			ev.Class(name, "judged/foreign-entries-kept-on-success/own-entry-refreshed:"+sc.Head)
+		}
+	}
+	if s.outcome == "permanent" && s.permKind != "" {
+		ev.Class(name, "judged/not-retried-after-permanent-standard-error:"+s.permKind)
+	}
+	if s.sawCorrupt {
+		ev.Class(name, "judged/attempt-saw-manifest-with-unknown-fields/"+s.outcome)
+	}
+	if s.multiDestroy {
+		ev.Class(name, "accepted/failed-workspace-released-more-than-once")
+	}
+	if s.zeroAttempts {
+		ev.Class(name, "accepted/negative-budget-no-attempt")
+	}
+	if s.errorIdentity != "" {
+		ev.Class(name, "informational/"+s.errorIdentity)
+	}
+}
 
 func sample(sc *scenario, d *vcsDouble, err error) func() any {
 	return func() any {
@@ -855,7 +1102,7 @@ func shardInfo() (int, int) {
 func TestExhaustiveScripts(t *testing.T) {
 	initFW(t)
 	const name = "vf/exhaustive"
-	ev.Rule(name, "endorse.VirtualFirmware (real changeEndorsements) on a 4 KiB fake firmware against the scripted VersionControl/ChangeOps double; for every retry budget in {-2,-1,0,1,2}: EVERY canonical outcome script of length <= max(budget,0)+2 over per-attempt outcomes {ok} + {workspace creation, manifest read, existence-probe read, endorsement write, chmod, manifest write, commit} x {retriable, permanent}, each step with 0 or 1 foreign manifest entries committed by a concurrent writer before that attempt's workspace is created (commit.r followed by F1 is the write-write race); canonical = nothing after the first terminal step, all-retriable scripts are one longer than the budget allows. Oracle (from the double's call log and committed head): attempts <= max(budget,0)+1; attempt n+1 only after attempt n failed and RetriableError answered true; every workspace operation on the current attempt's own, not yet destroyed/submitted workspace; manifest read from that workspace before it is written; every non-committed workspace destroyed exactly once; nil returned iff one TryCommit returned nil, Result called exactly once with that commit and never with anything else; permanent fault => returned error carries it; all allowed attempts failed retriably <=> ErrNoRetries; after success committed manifest contains every foreign entry. non-trivial = >=2 attempts or a foreign entry; distinct = (budget, script)")
+	ev.Rule(name, "endorse.VirtualFirmware (real changeEndorsements) on a 4 KiB fake firmware against the scripted VersionControl/ChangeOps double; for every retry budget in {-2,-1,0,1,2}: EVERY canonical outcome script of length <= max(budget,0)+2 over per-attempt outcomes {ok} + {workspace creation, manifest read, existence-probe read, endorsement write, chmod, manifest write, commit} x {retriable, permanent}, each step with 0 or 1 foreign manifest entries committed by a concurrent writer before that attempt's workspace is created (commit.r followed by F1 is the write-write race); canonical = nothing after the first terminal step, all-retriable scripts are one longer than the budget allows. Every scripted fault wraps a standard error (none, context.DeadlineExceeded, context.Canceled, io.EOF, io.ErrUnexpectedEOF, os.ErrPermission, os.ErrDeadlineExceeded, net.ErrClosed, fs.ErrInvalid, rotating over the enumeration); the back end's RetriableError answers from the scripted verdict alone. Oracle (from the double's call log and committed head): attempts <= max(budget,0)+1 (for a negative budget no attempt at all is accepted too); attempt n+1 only after attempt n failed and RetriableError answered true; every workspace operation on the current attempt's own, not yet destroyed/submitted workspace; manifest read from that workspace before it is written; every non-committed workspace destroyed (more than one Destroy call is accepted and counted); nil returned iff one TryCommit returned nil, Result called exactly once with that commit and never with anything else; which error comes back is left open except for the documented ErrNoRetries: all allowed attempts failed retriably => ErrNoRetries, and ErrNoRetries never while another attempt was allowed; after success the committed manifest (read skipping unknown fields) contains every foreign entry that was in the head when the successful attempt's workspace was created. A script whose fault sits at an operation the code does not perform is counted inconclusive. non-trivial = >=2 attempts or a foreign entry; distinct = (budget, script)")
 	var replay scenario
 	if ev.ReplayCase("TestExhaustiveScripts", &replay) {
 		d, err, pan := runScenario(&replay, endorse.RetrySubmit)
@@ -876,9 +1123,24 @@ func TestExhaustiveScripts(t *testing.T) {
 	hits := map[string]*hit{}
 	var order []string
 	winners, winnersDestroyed, negAttempts := 0, 0, map[int]bool{}
+	unreached, faulted, faultedPerm := 0, 0, 0
 	for _, b := range exhaustiveBudgets {
 		enumScripts(bound(b)+1, func(script []step) {
 			idx++
+			// Every faulted step wraps a standard error kind, rotating through kinds (9 entries,
+			// coprime with the 7 sites and the 2 foreign counts, so every (site, kind, retriable)
+			// combination occurs; permanent and retriable faults rotate separately). Done before sharding so that a script is the same in every shard.
+			for i := range script {
+				switch {
+				case script[i].Site == sOK:
+				case script[i].Retriable:
+					script[i].Kind = kinds[faulted%len(kinds)]
+					faulted++
+				default:
+					script[i].Kind = kinds[faultedPerm%len(kinds)]
+					faultedPerm++
+				}
+			}
 			if idx%nshards != shard {
 				return
 			}
@@ -907,7 +1169,13 @@ func TestExhaustiveScripts(t *testing.T) {
 				}
 			}
 			if sum.fired != want {
-				t.Fatalf("harness: %d scripted faults reached but %d fired: %s | %s", want, sum.fired, sc, d.logString())
+				// The code under test did not perform the operation the fault was scripted for (a
+				// legal implementation may, for instance, skip the existence probe under
+				// --overwrite): the script did not play out as enumerated, the oracle above still
+				// held for what did happen. Counted, not failed.
+				unreached++
+				ev.Class(name, "inconclusive/scripted-fault-not-reached")
+				return
 			}
 			for _, w := range d.wss {
 				if w.committed {
@@ -920,8 +1188,12 @@ func TestExhaustiveScripts(t *testing.T) {
 			if b < 0 {
 				negAttempts[sum.attempts] = true
 			}
-			ev.Case(name, nontrivial(sum), sc.String(), fmt.Sprintf("b=%d/%s", b, classOf(sc, sum)), sample(sc, d, err))
+			tally(name, sc, sum)
+			ev.Case(name, nontrivial(sc, sum), sc.String(), fmt.Sprintf("b=%d/%s", b, classOf(sc, sum)), sample(sc, d, err))
 		})
+	}
+	if unreached > 0 {
+		ev.Note("C14: vf/exhaustive: %d scripts had a scripted fault at an operation the code did not perform; they are counted as inconclusive and the enumeration is not claimed complete", unreached)
 	}
 	if len(order) > 0 {
 		for _, k := range order[1:] {
@@ -933,7 +1205,9 @@ func TestExhaustiveScripts(t *testing.T) {
 		ev.Violation(t, k, "%s", hits[k].msg)
 		return
 	}
-	ev.Exhaustive(name)
+	if unreached == 0 {
+		ev.Exhaustive(name)
+	}
 	if len(negAttempts) == 1 && negAttempts[1] {
 		ev.Note("C14: a negative retry budget behaves as zero retries (exactly one attempt is made); accepted as the reading of 'at most retries-plus-one attempts'")
 	}
@@ -949,7 +1223,7 @@ func TestExhaustiveScripts(t *testing.T) {
 // name / snapshot method, up to 3 foreign entries per step)
 
 func genScript(t *rapid.T, sites []string, n int) []step {
-	shape := rapid.SampledFrom([]string{"mixed", "mixed", "all-retriable", "retriable-then-ok", "retriable-then-permanent"}).Draw(t, "shape")
+	shape := rapid.SampledFrom([]string{"mixed", "mixed", "all-retriable", "retriable-then-ok", "retriable-then-ok", "retriable-then-ok", "retriable-then-permanent", "retriable-then-permanent"}).Draw(t, "shape")
 	cut := rapid.IntRange(0, n).Draw(t, "cut")
 	script := make([]step, n)
 	for i := range script {
@@ -974,6 +1248,10 @@ func genScript(t *rapid.T, sites []string, n int) []step {
 		if rapid.Bool().Draw(t, "hasForeign") {
 			st.Foreign = rapid.IntRange(1, 3).Draw(t, "foreign")
 		}
+		// Two faults in three wrap a standard error; the back end's verdict does not depend on it.
+		if st.Site != sOK && rapid.IntRange(0, 2).Draw(t, "hasKind") != 0 {
+			st.Kind = rapid.SampledFrom(kinds[1:]).Draw(t, "errkind")
+		}
 		script[i] = st
 	}
 	return script
@@ -982,7 +1260,7 @@ func genScript(t *rapid.T, sites []string, n int) []step {
 func TestSampledScenarios(t *testing.T) {
 	initFW(t)
 	const name = "vf/sampled"
-	ev.Rule(name, "endorse.VirtualFirmware against the scripted double; retry budget drawn from {-2,-1,0,1,2,5,5,5}; script of max(budget,0)+2 steps shaped {mixed, all-retriable, k retriable then ok, k retriable then permanent} over all fault sites, 0..3 foreign entries before each attempt; commit method {manifest x3, snapshot dir x1}; --overwrite in {true,false} x endorsement file already committed in {false,true} (false/true makes the code's own 'cannot overwrite' error, which the back end does not call retriable); candidate name in {\"\",\"rc7\"}. Oracle as in vf/exhaustive (manifest clauses only for the manifest method). non-trivial = >=2 attempts or a foreign entry; distinct = the scenario")
+	ev.Rule(name, "endorse.VirtualFirmware against the scripted double; retry budget drawn from {-2,-1,0,1,2,5,5,5}; script of max(budget,0)+2 steps shaped {mixed, all-retriable, k retriable then ok, k retriable then permanent} over all fault sites, 0..3 foreign entries before each attempt; commit method {manifest x3, snapshot dir x1}; --overwrite in {true,false} x endorsement file already committed in {false,true} (false/true makes the code's own 'cannot overwrite' error, which the back end does not call retriable); candidate name in {\"\",\"rc7\"}; two faults in three wrap a standard error kind. Manifest method: the head holds own earlier entries {none x3, path, same, digest, split, split-rev as in vf/refresh} after 0..2 foreign ones; one scenario in ten has the concurrent writer leave unknown fields in the manifest before some attempt (as in vf/unparsable). Snapshot method: SVSM image {yes,no} (a second set of files), 'already committed' means the .signed files of the snapshot, the existence probe can fault (it exists only without --overwrite), and a write/chmod/probe fault hits the 1st..3rd such operation of the attempt. Oracle as in vf/exhaustive (manifest clauses only for the manifest method). non-trivial = >=2 attempts, or (manifest method only) a foreign entry; distinct = the scenario")
 	checks(ev.Scale(6000, 60000))
 	rapid.Check(t, func(t *rapid.T) {
 		sc := &scenario{Mode: modeVF}
@@ -991,13 +1269,38 @@ func TestSampledScenarios(t *testing.T) {
 		}
 		sc.Budget = rapid.SampledFrom([]int{-2, -1, 0, 1, 2, 5, 5, 5}).Draw(t, "budget")
 		sites := []string{sWS, sRead, sExists, sWrite, sChmod, sWMan, sCommit}
+		sc.Overwrite = rapid.IntRange(0, 3).Draw(t, "overwrite") != 0
 		if sc.Mode == modeSnap {
 			sites = []string{sWS, sWrite, sChmod, sCommit}
+			if !sc.Overwrite { // the snapshot method probes for existing files only without --overwrite
+				sites = append(sites, sExists)
+			}
+			sc.Svsm = rapid.Bool().Draw(t, "svsm")
 		}
 		sc.Script = genScript(t, sites, bound(sc.Budget)+1)
-		sc.Overwrite = rapid.IntRange(0, 3).Draw(t, "overwrite") != 0
 		sc.PreExisting = rapid.IntRange(0, 2).Draw(t, "preexisting") == 0
 		sc.Candidate = rapid.SampledFrom([]string{"", "rc7"}).Draw(t, "candidate")
+		if sc.Mode == modeSnap {
+			// the snapshot method writes, and sets the mode of, several files: let the fault hit a
+			// later one too
+			for i := range sc.Script {
+				if st := sc.Script[i]; st.Site == sWrite || st.Site == sChmod || st.Site == sExists {
+					sc.Script[i].Nth = rapid.IntRange(0, 2).Draw(t, "nth")
+				}
+			}
+		} else {
+			// earlier submissions of our own in the head (this candidate's name and/or this
+			// firmware's digest already have manifest entries), foreign entries before them
+			sc.Head = rapid.SampledFrom([]string{"", "", "", "path", "same", "digest", "split", "split-rev"}).Draw(t, "head")
+			if sc.Head != "" {
+				sc.PriorForeign = rapid.IntRange(0, 2).Draw(t, "priorForeign")
+			}
+			// now and then the concurrent writer uses a schema the repository does not know
+			if rapid.IntRange(0, 9).Draw(t, "corrupt") == 0 {
+				i := rapid.IntRange(0, len(sc.Script)-1).Draw(t, "corruptAt")
+				sc.Script[i].Corrupt = rapid.SampledFrom([]string{"top", "entry"}).Draw(t, "corruptForm")
+			}
+		}
 		d, err, pan := runScenario(sc, endorse.RetrySubmit)
 		v, sum := judge(sc, d, err, pan)
 		if v != nil {
@@ -1008,7 +1311,8 @@ func TestSampledScenarios(t *testing.T) {
 		if sc.Mode == modeSnap {
 			cls = "snapshot/" + cls
 		}
-		ev.Case(name, nontrivial(sum), sc.String(), fmt.Sprintf("b=%d/%s", sc.Budget, cls), sample(sc, d, err))
+		tally(name, sc, sum)
+		ev.Case(name, nontrivial(sc, sum), sc.String(), fmt.Sprintf("b=%d/%s", sc.Budget, cls), sample(sc, d, err))
 	})
 }
 
@@ -1018,7 +1322,7 @@ func TestSampledScenarios(t *testing.T) {
 func TestRetrySubmitDirect(t *testing.T) {
 	initFW(t)
 	const name = "retrysubmit/direct"
-	ev.Rule(name, "endorse.RetrySubmit called directly with a well-behaved harness change function (fresh manifest read from the workspace it is given, then writes) that can itself fail retriably or permanently before touching the workspace; retry budget drawn from -3..8; script of max(budget,0)+2 steps as in vf/sampled plus the 'change' site. Oracle as in vf/exhaustive. non-trivial = >=2 attempts or a foreign entry; distinct = the scenario")
+	ev.Rule(name, "endorse.RetrySubmit called directly with a well-behaved harness change function (fresh manifest read from the workspace it is given, then writes) that can itself fail retriably or permanently before touching the workspace; retry budget drawn from -3..8; script of max(budget,0)+2 steps as in vf/sampled (standard error kinds included) plus the 'change' site. Oracle as in vf/exhaustive. non-trivial = >=2 attempts or a foreign entry; distinct = the scenario")
 	checks(ev.Scale(6000, 60000))
 	rapid.Check(t, func(t *rapid.T) {
 		sc := &scenario{Mode: modeDir, Overwrite: true}
@@ -1030,7 +1334,8 @@ func TestRetrySubmitDirect(t *testing.T) {
 			ev.Violation(t, v.Key, "%s", v.Msg)
 			return
 		}
-		ev.Case(name, nontrivial(sum), sc.String(), classOf(sc, sum), sample(sc, d, err))
+		tally(name, sc, sum)
+		ev.Case(name, nontrivial(sc, sum), sc.String(), classOf(sc, sum), sample(sc, d, err))
 	})
 }
 
@@ -1054,7 +1359,7 @@ func safeVirtualFirmware(ctx context.Context) (err error, pan any) {
 func TestContextReuse(t *testing.T) {
 	initFW(t)
 	const name = "vf/reuse"
-	ev.Rule(name, "ONE *endorse.Context and ONE scripted back end used for 2..4 consecutive endorse.VirtualFirmware submissions (candidate names sub0, sub1, ...; retry budget drawn from {0,1,2}; --overwrite drawn); the Context starts as {VCS=double, VCSs empty | VCS nil, VCSs=[double] | VCS=double, VCSs=[double]}; each submission has its own outcome script, shapes {ok x3, commit.r then ok x2, one permanent fault x2, all retriable, mixed over all sites}, 0..2 foreign entries before an attempt now and then. Oracle: every single-submission clause of vf/exhaustive applied to that submission's slice of the call log and to the workspaces created during it (attempts <= max(budget,0)+1, no attempt after a successful commit, retry only on a retriable verdict, fresh workspace per attempt, failed workspaces released once, nil iff exactly one commit succeeded, Result exactly once with that commit, committed manifest keeps every foreign entry). One ev.Case per submission; non-trivial = second or later submission; distinct = (initial wiring, budget, overwrite, scripts up to and including this submission)")
+	ev.Rule(name, "ONE *endorse.Context and ONE scripted back end used for 2..4 consecutive endorse.VirtualFirmware submissions (candidate names sub0, sub1, ...; retry budget drawn from {0,1,2} and, between submissions, now and then set anew from {-1,0,1,2}; --overwrite drawn); the Context starts as {VCS=double, VCSs empty | VCS nil, VCSs=[double] | VCS=double, VCSs=[double]}; each submission has its own outcome script, shapes {ok x3, commit.r then ok x2, one permanent fault x2, all retriable, mixed over all sites}, 0..2 foreign entries before an attempt now and then. Oracle: every single-submission clause of vf/exhaustive applied to that submission's slice of the call log and to the workspaces created during it (attempts <= max(budget,0)+1, no attempt after a successful commit, retry only on a retriable verdict, fresh workspace per attempt, failed workspaces released once, nil iff exactly one commit succeeded, Result exactly once with that commit, committed manifest keeps every foreign entry). One ev.Case per submission; non-trivial = second or later submission; distinct = (initial wiring, budget, overwrite, scripts up to and including this submission)")
 	checks(ev.Scale(2500, 25000))
 	sites := []string{sWS, sRead, sExists, sWrite, sChmod, sWMan, sCommit}
 	rapid.Check(t, func(t *rapid.T) {
@@ -1093,6 +1398,12 @@ func TestContextReuse(t *testing.T) {
 
 		history := fmt.Sprintf("wiring=%s ow=%v", wiring, overwrite)
 		for k := 0; k < nsub; k++ {
+			// The caller may set another retry budget between submissions (the first one keeps
+			// the budget the Context was built with): nothing of the previous budget may linger.
+			if k > 0 && rapid.Bool().Draw(t, "rebudget") {
+				budget = rapid.SampledFrom([]int{-1, 0, 1, 2}).Draw(t, "newBudget")
+				ec.CommitRetries = budget
+			}
 			sc := &scenario{Mode: modeVF, Budget: budget, Overwrite: overwrite, Candidate: fmt.Sprintf("sub%d", k)}
 			switch shape := rapid.SampledFrom([]string{"ok", "ok", "ok", "retry-ok", "retry-ok", "permanent", "permanent", "exhaust", "mixed"}).Draw(t, "shape"); shape {
 			case "ok":
@@ -1126,6 +1437,7 @@ func TestContextReuse(t *testing.T) {
 			if k > 0 {
 				pos = "later"
 			}
+			tally(name, sc, sum)
 			ev.Case(name, k > 0, history, fmt.Sprintf("%s/%s/%s", wiring, pos, classOf(sc, sum)), sample(sc, dv, err))
 		}
 	})
@@ -1144,7 +1456,14 @@ type loopVariant struct {
 	noDestroy  bool // do not destroy after a commit failure
 	resultFail bool // record a result on failure too
 	cacheRead  bool // the change function reuses the first attempt's manifest content
-	wantKeys   []string
+	// legitimate alternatives the oracle must accept (wantKeys empty):
+	destroyTwice   bool // a failed workspace is released by an explicit and a deferred Destroy
+	zeroOnNegative bool // a negative budget allows no attempt at all: ErrNoRetries at once
+	lastNoAsk      bool // after the last allowed attempt ErrNoRetries is returned without asking the back end
+	opaqueError    bool // a permanent failure is reported as a new error that does not wrap it
+	retryKinds     bool // retry on context.DeadlineExceeded whatever the back end says (wrong)
+	fewSites       bool // enumerate over four fault sites only (keeps the self-test short)
+	wantKeys       []string
 }
 
 func variantSubmit(v loopVariant) submitFn {
@@ -1153,8 +1472,11 @@ func variantSubmit(v loopVariant) submitFn {
 		if err != nil {
 			return err
 		}
-		var shared endorse.ChangeOps
+			var shared endorse.ChangeOps
 		allowed := bound(ec.CommitRetries) + v.offByOne
+		if v.zeroOnNegative && ec.CommitRetries < 0 {
+			return endorse.ErrNoRetries
+		}
 		for n := 1; ; n++ {
 			err := func() error {
 				cops := shared
@@ -1168,14 +1490,20 @@ func variantSubmit(v loopVariant) submitFn {
 						shared = cops
 					}
 				}
-				p, err := f(ctx, cops)
+					p, err := f(ctx, cops)
 				if err != nil {
 					cops.Destroy()
+					if v.destroyTwice {
+						cops.Destroy()
+					}
 					return fmt.Errorf("change: %w", err)
 				}
 				commit, err := cops.TryCommit(ctx)
 				if err != nil {
-					if !v.noDestroy {
+						if !v.noDestroy {
+						cops.Destroy()
+					}
+					if v.destroyTwice {
 						cops.Destroy()
 					}
 					if v.resultFail {
@@ -1186,10 +1514,23 @@ func variantSubmit(v loopVariant) submitFn {
 				ec.VCS.Result(commit, p)
 				return nil
 			}()
-			if err == nil {
+				if err == nil {
 				return nil
 			}
+			if v.lastNoAsk && n >= allowed {
+				return endorse.ErrNoRetries
+			}
+			if v.retryKinds && errors.Is(err, context.DeadlineExceeded) {
+				ec.VCS.RetriableError(err)
+				if n >= allowed {
+					return endorse.ErrNoRetries
+				}
+				continue
+			}
 			if !v.retryAll && !ec.VCS.RetriableError(err) {
+				if v.opaqueError {
+					return errors.New("the submission failed")
+				}
 				return err
 			}
 			if v.retryAll {
@@ -1213,20 +1554,36 @@ func TestOracleSelfTest(t *testing.T) {
 		{name: "no-destroy-on-commit-failure", noDestroy: true, wantKeys: []string{"C14/failed-workspace-not-released"}},
 		{name: "result-on-failure", resultFail: true, wantKeys: []string{"C14/result-recorded-without-commit"}},
 		{name: "manifest-read-once", cacheRead: true, wantKeys: []string{"C14/manifest-written-without-fresh-read"}},
+		{name: "retry-on-deadline-exceeded", retryKinds: true, wantKeys: []string{"C14/retry-after-permanent-error"}},
+		{name: "accepted: release-twice", destroyTwice: true, fewSites: true},
+		{name: "accepted: negative-budget-no-attempt", zeroOnNegative: true, fewSites: true},
+		{name: "accepted: no-verdict-asked-after-last-attempt", lastNoAsk: true, fewSites: true},
+		{name: "accepted: opaque-permanent-error", opaqueError: true, fewSites: true},
 	}
 	sites := []string{sWS, sRead, sWrite, sChmod, sWMan, sCommit, sChange}
 	for _, v := range variants {
 		hits := map[string]int{}
 		n := 0
 		for _, b := range []int{-1, 0, 1} {
-			enumScriptsOver(sites, bound(b)+1, func(script []step) {
+				rot := 0
+			vsites := sites
+			if v.fewSites {
+				vsites = []string{sWS, sRead, sCommit, sChange}
+			}
+			enumScriptsOver(vsites, bound(b)+1, func(script []step) {
+				for i := range script {
+					if script[i].Site != sOK {
+						script[i].Kind = kinds[rot%len(kinds)]
+						rot++
+					}
+				}
 				sc := &scenario{Mode: modeDir, Budget: b, Script: script, Overwrite: true}
 				d, err, pan := runScenario(sc, variantSubmit(v), func(d *vcsDouble) { d.cacheManifest = v.cacheRead })
 				n++
 				if vd, _ := judge(sc, d, err, pan); vd != nil {
 					hits[vd.Key]++
-					if len(v.wantKeys) == 0 {
-						t.Fatalf("harness: oracle rejects the reference loop: %s :: %s", vd.Key, vd.Msg)
+						if len(v.wantKeys) == 0 {
+						t.Fatalf("harness: oracle rejects the correct loop %q: %s :: %s", v.name, vd.Key, vd.Msg)
 					}
 				}
 			})
